@@ -18,7 +18,7 @@ def run(ctx):
     if big:
         c = sc.consts("ebgp", {"ok"}, {"annA", "noOrigin"}, {"badMarker"}, {"ManualStop", "Notification", "Wait"}, 8, sessions=2)
         behs += sc.run_family(ctx, "all paths ebgp", c, 4000, design=False, allpaths=True)
-    c = sc.consts("hold3", {"hold3"}, {"annAB"}, set(), {"WriteFails", "HoldExpires"}, 7)
+    c = sc.consts("hold3", {"hold3"}, {"annAB"}, set(), {"WriteFails", "HoldExpires", "HoldExpiresNoWrite"}, 7)
     behs += sc.run_family(ctx, "keepalive write failure", c, 2000 if big else 150)
     c = sc.consts("ibgp", {"ok"}, {"annAB", "wdA"}, {"type0"}, {"ManualStop", "Notification", "NotifBadSub", "NotifData"}, 7)
     behs += sc.run_family(ctx, "ibgp exits", c, 3000 if big else 250)
